@@ -36,6 +36,10 @@ Definition handle (ts : titles) (a : addr) : res (Z * Z * option Z) :=
           end;
   Ok (t, c, r).
 
+(* get_sheet's own title lookup: self._titles[sheet] *)
+Definition sheet_index (ts : titles) (t : tref) : res Z :=
+  match t with TIdx i => Ok i | TName n => match title_index ts n with Ok i => Ok i | Exc _ => Exc KeyError end end.
+
 (* Cell.uid *)
 Definition uid_of (t c : Z) (r : option Z) : string :=
   "_" ++ str_of_Z t ++ "_" ++ str_of_Z c ++ "_" ++ match r with Some r => str_of_Z r | None => "any" end.
@@ -143,7 +147,8 @@ Definition step (s : state) (o : op) : state * out :=
           end
       end
   | GetSheet t =>
-      match (match t with TIdx i => Ok i | TName n => title_index (s_titles s) n end) with
+      (* get_sheet looks the title up itself: self._titles[sheet] — a plain KeyError, not handle_cell's exception *)
+      match sheet_index (s_titles s) t with
       | Exc e => (s, OExc e)
       | Ok ti =>
           match py_index (s_sizes s) ti with
